@@ -436,3 +436,79 @@ pub fn unhex(s: &str) -> Vec<u8> {
         .map(|i| u8::from_str_radix(&s[2 * i..2 * i + 2], 16).unwrap())
         .collect()
 }
+
+//------------ hashers ---------------------------------------------------------
+
+/// A word-at-a-time hasher of the FxHash kind (the one behind `FxHashMap`).
+/// Unlike SipHash it is *not* a pure byte stream: one `write` of n octets and
+/// n calls of `write_u8` mix differently. The `Hash` contract (`a == b` implies
+/// equal hashes) is stated for every `Hasher`, and `Hasher` documents that no
+/// write method may be assumed to be equivalent to a sequence of others, so
+/// equal values have to issue the same sequence of calls. Monitors that check
+/// "equal implies equal hash" use both this and `DefaultHasher`.
+#[derive(Default, Clone)]
+pub struct WordHasher {
+    hash: u64,
+}
+
+impl WordHasher {
+    const K: u64 = 0x51_7c_c1_b7_27_22_0a_95;
+    #[inline]
+    fn add(&mut self, w: u64) {
+        self.hash = (self.hash.rotate_left(5) ^ w).wrapping_mul(Self::K);
+    }
+}
+
+impl std::hash::Hasher for WordHasher {
+    fn write(&mut self, mut bytes: &[u8]) {
+        while bytes.len() >= 8 {
+            self.add(u64::from_le_bytes(bytes[..8].try_into().unwrap()));
+            bytes = &bytes[8..];
+        }
+        if bytes.len() >= 4 {
+            self.add(u32::from_le_bytes(bytes[..4].try_into().unwrap()) as u64);
+            bytes = &bytes[4..];
+        }
+        if bytes.len() >= 2 {
+            self.add(u16::from_le_bytes(bytes[..2].try_into().unwrap()) as u64);
+            bytes = &bytes[2..];
+        }
+        if let Some(b) = bytes.first() {
+            self.add(*b as u64);
+        }
+    }
+    fn write_u8(&mut self, i: u8) {
+        self.add(i as u64)
+    }
+    fn write_u16(&mut self, i: u16) {
+        self.add(i as u64)
+    }
+    fn write_u32(&mut self, i: u32) {
+        self.add(i as u64)
+    }
+    fn write_u64(&mut self, i: u64) {
+        self.add(i)
+    }
+    fn write_u128(&mut self, i: u128) {
+        self.add(i as u64);
+        self.add((i >> 64) as u64)
+    }
+    fn write_usize(&mut self, i: usize) {
+        self.add(i as u64)
+    }
+    fn finish(&self) -> u64 {
+        self.hash
+    }
+}
+
+/// Hash of a value under SipHash (`DefaultHasher`) combined with its hash
+/// under the word-at-a-time hasher: two values get the same answer only if
+/// they agree under both.
+pub fn hash2_of<T: std::hash::Hash + ?Sized>(t: &T) -> u64 {
+    use std::hash::Hasher;
+    let mut a = std::collections::hash_map::DefaultHasher::new();
+    t.hash(&mut a);
+    let mut b = WordHasher::default();
+    t.hash(&mut b);
+    a.finish() ^ b.finish().rotate_left(29).wrapping_mul(0x9e37_79b9_7f4a_7c15)
+}
